@@ -281,7 +281,7 @@ class ConvexPolygon(GeoBody):
         elif isinstance(other, Segment):
             return (other.start_point in self) and (other.end_point in self)
         else:
-            return NotImplementedError("")
+            raise NotImplementedError("")
 
     def in_(self, other):
         """
